@@ -24,7 +24,7 @@ func checkC01(r *Run) {
 	runMatchD1(r, g, "direct", false, pick(r, 5*time.Minute, 40*time.Minute))
 	// hostname mode: overlapping host patterns above path patterns with parameters
 	gh := newMatchGen(rng, pick(r, 4, 8), pick(r, 12, 24), 3, 3, pick(r, 30, 60), true)
-	gh.Hosts = withHostSpellings(append(derivedHostsFirst(gh, pick(r, 8, 14)), "a.b", "a.ab", "a.b.ab"), 2)
+	gh.Hosts = withHostSpellings(append(derivedHostsFirst(gh, pick(r, 8, 14)), "a.b", "a.ab", "a.b.ab", "/a", "a.b/a", "{a.b"), 2)
 	runMatchD1(r, gh, "direct", false, pick(r, 5*time.Minute, 40*time.Minute))
 	runMatchD2(r, false, false)
 	runLookupModel(r, true) // with the negative runs (one per rule of the walk) in the thorough tier
